@@ -122,3 +122,60 @@ func c19AbsAtTheEdges(res *Result) {
 		check("computed", src, map[string]interface{}{"x": -0.004}, 0, "0")
 	}
 }
+
+// c19FractionalIndexes: a start or a length that is not whole (the half of an odd length, say) is cut to the whole
+// number towards zero, as an index is everywhere else: slice(a, b) is slice(trunc a, trunc b).
+func c19FractionalIndexes(res *Result) {
+	eng := twig.New()
+	fr := []float64{0.5, 1.5, 2.5, -0.5, -1.5, -2.5, 2.9, -2.9, 1.0, 0.4, 3.999, -0.999, 4.5, 7.5}
+	ctx := func(f, g float64) map[string]interface{} {
+		return map[string]interface{}{"xs": []interface{}{"a", "b", "c", "d", "e"}, "ts": []string{"p", "q", "r"}, "s": "héllo wörld", "f": f, "g": g, "tf": int(f), "tg": int(g)}
+	}
+	render := func(src string, c map[string]interface{}) string {
+		if eng.RegisterString("t", src) != nil {
+			return "parse error"
+		}
+		out, err := eng.Render("t", c)
+		if err != nil {
+			return "error"
+		}
+		return out
+	}
+	for _, base := range []string{"xs", "ts", "s"} {
+		show := "|join(',')"
+		if base == "s" {
+			show = ""
+		}
+		for _, f := range fr {
+			for _, g := range fr {
+				c := ctx(f, g)
+				for _, pair := range [][2]string{
+					{"{{ " + base + "|slice(f)" + show + " }}", "{{ " + base + "|slice(tf)" + show + " }}"},
+					{"{{ " + base + "|slice(0, g)" + show + " }}", "{{ " + base + "|slice(0, tg)" + show + " }}"},
+					{"{{ " + base + "|slice(f, g)" + show + " }}", "{{ " + base + "|slice(tf, tg)" + show + " }}"},
+					{"{{ " + base + "|slice(f, g)|length }}", "{{ " + base + "|slice(tf, tg)|length }}"},
+					{"{% for x in " + base + "|slice(f, g) %}{{ x }};{% endfor %}", "{% for x in " + base + "|slice(tf, tg) %}{{ x }};{% endfor %}"},
+				} {
+					res.Hist["stream:fractional-indexes"]++
+					res.Evaluations += 2
+					got, want := render(pair[0], c), render(pair[1], c)
+					if got == "error" || want == "error" {
+						continue
+					}
+					if got != want {
+						c19Add(res, Finding{Kind: "oracle", Where: "fractional-indexes", Case: Case{"stream": "fractional-indexes", "tpl": pair[0], "f": f, "g": g}, Expected: want, Observed: got,
+							Detail: "the same slice with the whole numbers towards zero as arguments gives the expected result"})
+						return
+					}
+				}
+			}
+		}
+	}
+	// the natural spelling: half of the length
+	for _, tc := range [][2]string{{"{{ xs|slice(0, xs|length / 2)|join(',') }}", "a,b"}, {"{{ xs|slice(xs|length / 2)|join(',') }}", "c,d,e"}, {"{{ s|slice(0, s|length / 2) }}", "héllo"}} {
+		res.Evaluations++
+		if got := render(tc[0], ctx(0, 0)); got != tc[1] && got != "error" {
+			c19Add(res, Finding{Kind: "oracle", Where: "fractional-indexes/half", Case: Case{"stream": "fractional-indexes", "tpl": tc[0]}, Expected: tc[1], Observed: got})
+		}
+	}
+}
